@@ -106,3 +106,31 @@
         if lo <= 0xE0 && hi >= 0xE0 { crate::vcover!(c == 0xE0 && pending); }
         if lo <= 2 && hi >= 2 { crate::vcover!(c == 2 && pending); }
     }
+
+    // ---------------------------------------------------------------- C10.bound / C10.drop (see kani/enc/lzma2_writer_mt.rs)
+    fn notify_stub(_c: &std::sync::Condvar) {}
+    #[kani::proof]
+    #[kani::unwind(4)]
+    #[kani::stub(LZMA2ReaderMT::spawn_worker_thread, spawn_stub)]
+    #[kani::stub(std::sync::Condvar::notify_one, notify_stub)]
+    #[kani::stub(std::sync::Condvar::notify_all, notify_stub)]
+    #[kani::stub(alloc::sync::Arc::drop_slow, vk::arc_leak_stub)]
+    fn c10_new_drop_r_lzma2() {
+        unsafe { SPAWNED = 0; }
+        let n: u32 = vk::any();
+        let dict: u32 = vk::any();
+        let r = LZMA2ReaderMT::new(vk::Src::<10>::new([0u8; 10], 10), dict, None, n);
+        assert!(r.max_workers == if n < 1 { 1 } else if n > 256 { 256 } else { n });
+        assert!(unsafe { SPAWNED } == 1, "exactly one worker is started by the constructor");
+        assert!(r.dict_size == dict && r.preset_dict.is_none());
+        assert!(r.next_sequence_to_dispatch == 0 && r.next_sequence_to_return == 0 && r.chunk_count() == 0 && r.current_work_unit.is_empty());
+        let h = r.work_queue.worker();
+        let flag = Arc::clone(&r.shutdown_flag);
+        assert!(!flag.load(Ordering::Acquire) && !h.is_closed_and_empty());
+        let already: bool = vk::any();
+        flag.store(already, Ordering::Release);
+        drop(r);
+        assert!(flag.load(Ordering::Acquire), "shutdown flag not set by drop");
+        assert!(h.is_closed_and_empty(), "work queue left open by drop: idle workers sleep forever");
+        assert!(h.steal().is_none());
+    }
